@@ -24,6 +24,11 @@ def cuts(rng, n, schedule):
     """cut points (segment lengths) for n bytes"""
     if n == 0:
         return []
+    if isinstance(schedule, tuple) and schedule[0] == "shifted":
+        # segments as long as the records (w bytes) but out of step with them: the first one is shorter
+        w, first = schedule[1], min(n, max(1, schedule[2]))
+        rest = n - first
+        return [first] + [w] * (rest // w) + ([rest % w] if rest % w else [])
     if schedule == "whole":
         return [n]
     if schedule == "byte":
